@@ -1,6 +1,7 @@
 package main
 
 import (
+	"strconv"
 	"go/token"
 	"go/types"
 	"sort"
@@ -529,7 +530,31 @@ func c12Client(c *Ctx) {
 			c.Check(whole, "C12.D5-client-workflow", f.Name+" › reads the whole response body", cs.In.Pos(), "io.ReadAll(resp.Body)", "the store client does not read the response body itself to its end ("+abbreviate(cs.X.Args[0].String())+"): encrypted values larger than the cap come back truncated and the lookup silently returns fewer results than were indexed")
 		}
 	}
-	c.Floor("C12.D5-client-workflow", 8)
+	// what is decrypted is what the store sent: the client does not ask for a content encoding by hand (net/http
+	// decompresses transparently only when it added Accept-Encoding itself; otherwise the JSON decoder is handed
+	// compressed bytes and the lookup silently yields nothing). Expected 0 sites, with a positive example.
+	acceptEnc := func(cc *Ctx, fns []*Fn) []ssa.Instruction {
+		var out []ssa.Instruction
+		for _, f := range fns {
+			for _, cs := range cc.Calls(f.SSA, Or(Call("net/http.Header).Set"), Call("net/http.Header).Add"))) {
+				if len(cs.X.Args) >= 2 {
+					if name, err := strconv.Unquote(strip(cs.X.Args[1]).Name); err == nil && strings.EqualFold(name, "Accept-Encoding") {
+						out = append(out, cs.In)
+					}
+				}
+			}
+		}
+		return out
+	}
+	for _, in := range acceptEnc(c, c.Funcs("find/client")) {
+		c.Bad("C12.D5-client-workflow", c.short(topFunc(in.Parent()).String())+" › body as sent", in.Pos(), "the client sets Accept-Encoding itself: net/http then does not decompress the response, and a store (or proxy) that compresses makes every lookup decode garbage and return no results")
+	}
+	if pc := c.posex(); pc == nil {
+		c.Unk("C12.D5-client-workflow", "positive example (Accept-Encoding)", token.NoPos, "positive example package could not be loaded")
+	} else {
+		c.Check(len(acceptEnc(pc, pc.Funcs("ipnicheck/testdata/posex"))) == 1, "C12.D5-client-workflow", "positive example fires (Accept-Encoding)", token.NoPos, "rule found the seeded hand-set Accept-Encoding (and none in find/client)", "rule did not find its positive example: it would pass vacuously")
+	}
+	c.Floor("C12.D5-client-workflow", 9)
 }
 
 func c12ValueKey(c *Ctx) {
